@@ -12,6 +12,7 @@ SPEC = {
         "send_signal under child_state = Finished / Preparing showing that no call at all is reachable. "
         "Holds for every history because the rule quantifies over all paths of the code, not over runs."
         " Thorough tier, windows: TerminateProcess only in os_terminate, under Running, on the stored handle; no call at all under Finished; the error is returned only if it is not ACCESS_DENIED or the process is STILL_ACTIVE, otherwise the exit is recorded."
+        " Finished — the state in which nothing is sent — is stored only under pid_out == pid or errno == ECHILD."
     ),
     "not_decided": "pid reuse while the state is still Running because an external reaper has not been noticed "
                    "(excluded by the statement); kernel delivery semantics of kill(2).",
@@ -135,6 +136,9 @@ def run(ctx):
     ctx.exhaustive = True
 
     reported_status_is_recorded(ctx, prog, "R10.4")
+    # "while the child has not been reaped" the signal is delivered: Finished — the state in which nothing is sent — is entered only on proof of reaping
+    import c09
+    c09.finished_only_when_reaped(ctx, prog, "R10.4")
 
     # R10.5 signature facts: send_signal takes &self, wait/poll/wait_timeout take &mut self
     sig = ss.j.get("inputs", [])
